@@ -182,8 +182,8 @@ func (mdb *memdb) addBodyID(bodyid uint64) {
 
 // delete bodyid from sorted in-memory list of bodyids
 func (mdb *memdb) deleteBodyID(bodyid uint64) {
-	i := sort.Search(len(mdb.ids), func(i int) bool { return mdb.ids[i] == bodyid })
-	if i == len(mdb.ids) {
+	i := sort.Search(len(mdb.ids), func(i int) bool { return mdb.ids[i] >= bodyid })
+	if i == len(mdb.ids) || mdb.ids[i] != bodyid {
 		return
 	}
 	mdb.ids = append(mdb.ids[:i], mdb.ids[i+1:]...)
